@@ -144,7 +144,15 @@ func bytesLemmas(goal string, asserts []string) (lemmas, pairwise []string, used
 		for j := i + 1; j < len(cats); j++ {
 			a, b := terms[cats[i]][1], terms[cats[i]][2]
 			c, d := terms[cats[j]][1], terms[cats[j]][2]
-			pairwise = append(pairwise, imp(and(eq(cats[i], cats[j]), eq(app("blen", a), app("blen", c))), and(eq(a, c), eq(b, d))))
+			// terms that end in a position (be64 . be16, always 10 bytes) cancel from the right
+			// without a premise; mixed pairs are left out (fewer case splits)
+			pb, pd := strings.HasPrefix(b, "(cat (be64 ") && strings.Contains(b, "(be16 "), strings.HasPrefix(d, "(cat (be64 ") && strings.Contains(d, "(be16 ")
+			switch {
+			case pb && pd:
+				pairwise = append(pairwise, imp(eq(cats[i], cats[j]), and(eq(a, c), eq(b, d))))
+			case !pb && !pd:
+				pairwise = append(pairwise, imp(and(eq(cats[i], cats[j]), eq(app("blen", a), app("blen", c))), and(eq(a, c), eq(b, d))))
+			}
 		}
 	}
 	for _, grp := range [][]string{b64, b16} {
